@@ -95,18 +95,11 @@ def _walk_no_scopes(node):
 
 @trigger("walrus_in_loop_header")
 def _t_walrus_header(c):
-    """D8b: a walrus inside a `while` test (placed in a lambda inside a comprehension iterable)."""
+    """D8b: a walrus inside a `while` test or a `for` iterable (both end up in a comprehension iterable)."""
     for n in c.nodes:
         if isinstance(n, ast.While):
             if any(isinstance(x, ast.NamedExpr) for x in ast.walk(n.test)):
                 return True
-    return False
-
-
-@trigger("walrus_in_comprehension_iterable_position")
-def _t_walrus_for_iter(c):
-    """D8b': a walrus inside a `for` iterable (becomes a comprehension iterable expression)."""
-    for n in c.nodes:
         if isinstance(n, ast.For):
             if any(isinstance(x, ast.NamedExpr) for x in ast.walk(n.iter)):
                 return True
